@@ -259,7 +259,17 @@ def check_step(m, op, cas, resp, silent, issued):
         if it is None:
             m.items.pop(k, None)
             if op.get('exp', 0) == 0xffffffff: return expect_err(resp, silent, op, 1, what + ' with expiration 0xffffffff on an absent key')
-            if cas != 0: return adopt(m, op, resp, k)
+            if cas != 0:
+                # C07 makes no exception for a request CAS: the counter is created with the initial value (only the
+                # CAS-uniqueness claim of C02 is open for a lifetime begun this way)
+                if resp is None and not (silent and op.get('quiet')): raise Mismatch('%s carrying a CAS on an absent key: the counter must be created and the initial value returned (C07), got no response' % what)
+                if resp is not None and resp['status'] != 0: raise Mismatch('%s carrying a CAS on an absent key: status 0x%04x, the counter must be created with the initial value (C07)' % (what, resp['status']))
+                if resp is not None:
+                    wf(resp, op)
+                    if resp['blen'] != 8 or struct.unpack('>Q', resp['body'])[0] != op.get('initial', 0): raise Mismatch('%s: created counter must return the initial value in 8 bytes (C07/C11)' % what)
+                store_item(m, k, str(op.get('initial', 0)).encode(), 0, op.get('exp', 0), resp, issued, lifetime_new=True)
+                m.items[k]['counter_origin'] = False
+                return
             r = expect_ok_mutation(resp, silent, op, what)
             if r is not None and (r['blen'] != 8 or struct.unpack('>Q', r['body'])[0] != op.get('initial', 0)): raise Mismatch('%s: created counter must return the initial value in 8 bytes (C07/C11)' % what)
             store_item(m, k, str(op.get('initial', 0)).encode(), 0, op.get('exp', 0), r, issued, lifetime_new=True); return
@@ -326,6 +336,7 @@ def boundary_histories():
         H.append([dict(op='tick', n=100), s(exp=10), dict(op='tick', n=50), dict(op='flush', delay=5, quiet=q), dict(op='tick', n=1), dict(op='get', key=K)])
         H.append([s(), s(), dict(op='set', key=J, value=b'x', cas=2**64 - 1, quiet=q), s(), s(), s(), dict(op='set', key=K, value=b'LOST', cas='stale', quiet=q), dict(op='get', key=K)])
         H.append([s(), s(), dict(op='set', key=J, value=b'x', cas=2**64 - 2, quiet=q), s(), s(), s(), s(), dict(op='set', key=K, value=b'LOST', cas='stale', quiet=q), dict(op='get', key=K)])
+        H.append([dict(op='incr', key=K, delta=1, initial=41, cas=9, exp=0, quiet=q), dict(op='get', key=K), dict(op='decr', key=J, delta=1, initial=7, cas=2**64 - 1, exp=30, quiet=q), dict(op='get', key=J), dict(op='incr', key=K, delta=1, quiet=q), dict(op='get', key=K)])
         # an acknowledged CAS store on an absent key is a store: it lives for its ttl from NOW, also late in the server's life
         H.append([dict(op='tick', n=1000), dict(op='set', key=K, value=b'w', cas=7, exp=60, flags=3, quiet=q), dict(op='get', key=K), dict(op='tick', n=59), dict(op='get', key=K), dict(op='tick', n=1), dict(op='get', key=K)])
         H.append([dict(op='tick', n=500), s(exp=5), dict(op='tick', n=5), dict(op='set', key=K, value=b'back', cas='stale', exp=30, quiet=q), dict(op='get', key=K), dict(op='tick', n=29), dict(op='get', key=K)])
